@@ -127,6 +127,7 @@ type txScript struct {
 	lateConsumer bool
 	clockThread  bool // the clock is advanced by its own thread (at any point) instead of by the poller
 	quickBound0  bool // quick tier: call-granularity interleavings only (preemption bound 0)
+	lateProc     bool // the processor and the saver are attached only after the peers are done, right before Run starts (an order of API calls the embedding program is free to use)
 }
 
 func (s txScript) name() string {
@@ -137,6 +138,9 @@ func (s txScript) name() string {
 	n := "txmanager/" + strings.Join(ps, "|")
 	if len(s.poll) > 0 {
 		n += fmt.Sprintf("/poll%v", s.poll)
+	}
+	if s.lateProc {
+		n += "/processor-attached-late"
 	}
 	if s.adv {
 		n += "/advance"
@@ -163,8 +167,10 @@ func txScenario(sc txScript) func() func() []string {
 	return func() func() []string {
 		txm := bitcoin_reader.NewTxManager(txTimeout)
 		proc := &txProc{}
-		txm.SetTxProcessor(proc)
-		txm.SetTxSaver(proc)
+		if !sc.lateProc {
+			txm.SetTxProcessor(proc)
+			txm.SetTxSaver(proc)
+		}
 		h := &txHistory{}
 		// set-up: one poll on the empty manager visits every bucket, which gives the manager's and
 		// the 256 buckets' locks stable names (see vsched: objects first used during set-up)
@@ -249,6 +255,10 @@ func txScenario(sc txScript) func() func() []string {
 		// when all peers are done the manager is stopped, so the consumer drains and returns
 		vsched.GoNamed("closer", func() {
 			wg.Wait()
+			if sc.lateProc {
+				txm.SetTxProcessor(proc)
+				txm.SetTxSaver(proc)
+			}
 			txm.Stop(bg)
 			if sc.lateConsumer {
 				// The consumer only communicates through the (never full) transaction channel, so
@@ -736,6 +746,12 @@ func c06Scenarios(thorough bool) []*scenario {
 	// offered it (what is counted or derived from deliveries must not leak into other transactions)
 	add(txScript{peers: [][]string{{"D0", "A1"}, {"D0", "A1"}}, poll: []int{1}, adv: true, quickBound0: true})
 	add(txScript{peers: [][]string{{"D0", "D0", "A1"}, {"A1"}}, poll: []int{1}, adv: true, quickBound0: true})
+	// deliveries that arrive before the processor is attached (it is attached, and Run started, when
+	// the peers are done): they wait in the manager and are processed once each
+	for _, ps := range [][][]string{{{"D0"}, {"D0"}}, {{"A0", "D0"}, {"D1"}}, {{"D0", "D1"}, {"A1", "D1"}}} {
+		sc := txScript{peers: ps, lateProc: true, maxReq: 100, lateConsumer: true}
+		r = append(r, &scenario{name: sc.name(), bounds: []int{0, 1}, body: txScenario(sc), steps: 20000})
+	}
 	// an old undelivered transaction: three announcers and the clock passing the request timeout at
 	// any point between them (the announcement after the timeout is a re-request; the next one,
 	// inside the new window, must not be)
